@@ -108,7 +108,7 @@ def eval_chunk(args):
         for f in fails:
             i = f.get('index')
             f['impl_eq_model'] = (i is not None and public(ri[i]) == rm[i])
-        dis = diff_results(p, ri, rm, P.obs)
+        dis = diff_results(p, ri, rm, P.obs, getattr(P, 'out_of_scope', None))
         res.append(dict(fails=fails, dis=[(i, list(op), jsonable(a), jsonable(b)) for i, op, a, b in dis[:3]], ndis=len(dis),
                         nt=bool(P.nontrivial(c, p, ri)), cls=P.classify(c, p, ri), nops=len(p)))
     return dict(error=None, results=res)
@@ -122,7 +122,7 @@ def eval_one(P, case):
     for f in fails:
         i = f.get('index')
         f['impl_eq_model'] = (i is not None and public(ri[i]) == rm[i])
-    dis = diff_results(p, ri, rm, P.obs)
+    dis = diff_results(p, ri, rm, P.obs, getattr(P, 'out_of_scope', None))
     return p, ri, rm, fails, dis
 
 
